@@ -247,6 +247,4 @@ func (w *cluster3) lose(n *node, mode int, grace time.Duration) {
 	run.Probe("c18.recovered")
 }
 
-func init() {
-	simkit.Register(&simkit.Prop{ID: "C18", Gen: genLoss, Exec: execLoss, MaxWall: 180 * time.Second})
-}
+
